@@ -120,24 +120,51 @@ Proof. vm_compute. auto. Qed.
 (* No run of a compiled graph reaches a failing type assertion (neither the recovered
    panic of a node entry nor the escaping panic of a branch condition, state handler or
    the final output), for every input of the graph's input type and every dynamic value
-   the lambdas return ([emit], constrained only by what the Go compiler guarantees:
-   [emit_ok] = every lambda returns a value of its declared output type). *)
+   the lambdas and state handlers return (constrained only by what the Go compiler
+   guarantees: [emit_ok] = every lambda returns a value of its declared output type;
+   [hret_ok] = a state handler of a lambda node, declared for the node's type, returns a
+   value of that type.  The handlers of a passthrough node are declared for any and may
+   return anything: the framework checks their result against the node's inferred type
+   and reports the ordinary run-time type error, repair F-C07f). *)
 Theorem run_type_safe : forall u orcs i o s ops st oks emit input,
   run_ops u orcs 0 (init_graph i o s) ops = (st, oks) -> g_compiled st = true ->
-  emit_ok u emit st -> has_type u input (g_in st) = true ->
+  emit_ok u emit st -> hret_ok u st -> has_type u input (g_in st) = true ->
   run u (assert_type u) emit st input <> RPanicRec /\
   run u (assert_type u) emit st input <> RPanicEsc.
 Proof. exact run_type_safe_main. Qed.
 Print Assumptions run_type_safe.
 
 Example run_type_safe_nonvacuous :
+  hret_ok U0 st_b /\
   emit_ok U0 [(2, DVal 0)]%N st_b /\ emit_ok U0 [(2, DVal 1)]%N st_b /\ emit_ok U0 [(2, DNil)]%N st_b /\
   run U0 (assert_type U0) [(2, DVal 0)]%N st_b (DVal 0) = ROk (DVal 0) /\
   run U0 (assert_type U0) [(2, DVal 1)]%N st_b (DVal 0) = RTypeErr /\
   run U0 (assert_type U0) [(2, DNil)]%N st_b (DVal 0) = RTypeErr.
 Proof.
+  split; [apply hret_okb_sound; vm_compute; reflexivity|].
   split; [apply emit_okb_sound; vm_compute; reflexivity|].
   split; [apply emit_okb_sound; vm_compute; reflexivity|].
+  split; [apply emit_okb_sound; vm_compute; reflexivity|].
+  vm_compute. auto.
+Qed.
+
+(* state handlers that change the value: on the lambda node n2 (declared for I2: returns T2
+   instead of what came in) and on the passthrough node P (declared for any: returns T3,
+   which is not of P's inferred type I2: ordinary error; or T1: passed on) *)
+Definition ops_hd (pret : dyn) : list op :=
+  [OpNode 2 I2 I2 (Some {| h_state := 1; h_ty := I2; h_ret := Some (DVal 1) |}) None;
+   OpPass 3 (Some {| h_state := 1; h_ty := TAny; h_ret := Some pret |}) None;
+   OpNode 4 T1 T1 None None;
+   OpEdge 0 2; OpEdge 2 3; OpEdge 3 4; OpEdge 4 1; OpCompile]%N.
+Example run_type_safe_handlers_nonvacuous :
+  let st3 := fst (run_ops U0 asc 0 (init_graph I2 T1 (Some 1%N)) (ops_hd (DVal 2))) in
+  let st1 := fst (run_ops U0 asc 0 (init_graph I2 T1 (Some 1%N)) (ops_hd (DVal 0))) in
+  g_compiled st3 = true /\ hret_ok U0 st3 /\ emit_ok U0 [(2, DVal 0)]%N st3 /\
+  run U0 (assert_type U0) [(2, DVal 0)]%N st3 (DVal 0) = RTypeErr /\
+  run U0 (assert_type U0) [(2, DVal 0)]%N st1 (DVal 0) = ROk (DVal 0).
+Proof.
+  split; [vm_compute; reflexivity|].
+  split; [apply hret_okb_sound; vm_compute; reflexivity|].
   split; [apply emit_okb_sound; vm_compute; reflexivity|].
   vm_compute. auto.
 Qed.
@@ -181,13 +208,16 @@ Proof. exact may_step_main. Qed.
 Print Assumptions may_edges_error_iff_step.
 
 (* The whole run ([run_dones]: the completed-task lists of its supersteps, every value in
-   them of its producer's static output type): Invoke fails with the run-time type error
-   iff in some superstep a value is not assignable to something it is handed to. *)
+   them of its producer's static output type; [run_tasks]: the task lists of its
+   supersteps): Invoke fails with the run-time type error iff in some superstep a value is
+   not assignable to something it is handed to, or ([exec_mismatch]) a state handler of a
+   passthrough node hands on a value that is not assignable to the node's inferred type. *)
 Theorem may_edges_error_iff : forall u orcs i o s ops st oks emit input,
   run_ops u orcs 0 (init_graph i o s) ops = (st, oks) -> g_compiled st = true ->
-  emit_ok u emit st -> has_type u input (g_in st) = true -> choices_valid st ->
+  emit_ok u emit st -> hret_ok u st -> has_type u input (g_in st) = true -> choices_valid st ->
   (run u (assert_type u) emit st input = RTypeErr <->
-   exists done, In done (run_dones u emit st input) /\ step_mismatch u st done = true).
+   (exists done, In done (run_dones u emit st input) /\ step_mismatch u st done = true) \/
+   (exists tasks, In tasks (run_tasks u emit st input) /\ exec_mismatch u st tasks = true)).
 Proof. exact may_run_main. Qed.
 Print Assumptions may_edges_error_iff.
 
